@@ -421,6 +421,15 @@ func (x *exec) applyModifies(s *State, con *Contract, env *Env, args []*Val) {
 func (x *exec) havocTarget(s *State, m *Clause, env *Env) {
 	text := m.Text
 	switch {
+	case strings.HasPrefix(text, "csprng("):
+		// the provenance flag of one object may change
+		ce, ok := m.E.(*ECall)
+		if !ok || len(ce.Args) != 1 {
+			fail("modifies %s: csprng(e)", text)
+		}
+		v := x.eval(ce.Args[0], env, nil)
+		h := x.h.get(s, csprngArr, "(Array Int Bool)")
+		x.h.set(s, csprngArr, "(Array Int Bool)", Sto(h, x.refOf(v), x.c.FreshConst("hv", "Bool")))
 	case strings.HasSuffix(text, "[*]"):
 		e, err := ParseExpr(strings.TrimSuffix(text, "[*]"))
 		if err != nil {
@@ -620,6 +629,7 @@ func (x *exec) appendOp(fr *frame, s *State, cc *ssa.CallCommon, args []*Val, po
 		x.c.Axiom([]string{newArr}, fmt.Sprintf("(forall ((%s %s)) (! %s :pattern ((select %s %s))))", j, I, body, newArr, j))
 		x.h.set(s, name, sortN, Sto(h, rref, newArr))
 	}
+	x.clearCsprng(s, rref)
 	r := x.mkVal(x.c.Let("sl", "Slice", fmt.Sprintf("(mk-slice %s %s %s %s)", rref, roff, nlen, rcap)), st)
 	return r
 }
@@ -655,6 +665,7 @@ func (x *exec) copyOp(fr *frame, s *State, cc *ssa.CallCommon, args []*Val) *Val
 	x.c.Axiom([]string{newArr}, fmt.Sprintf("(forall ((%s %s)) (! (= (select %s %s) %s) :pattern ((select %s %s))))",
 		j, I, newArr, j, Ite(in, from, Sel(Sel(h, dref), j)), newArr, j))
 	x.h.set(s, name, sortN, Sto(h, dref, newArr))
+	x.clearCsprng(s, dref)
 	if args[0].Origin != nil {
 		x.store(s, args[0].Origin, x.freshVal("arr", args[0].OriginT, s), args[0].OriginT)
 	}
